@@ -42,17 +42,17 @@ M("c08.v1-string-not-split", "C08", TE + "builder.py", "tag_expression_parts = t
 
 # ---- C01 -------------------------------------------------------------------
 # Equivalent for the demanded behaviour (not kept): dropping `hook_failures > 0` (every hook failure also marks an element
-# or aborts), dropping the undefined-steps disjunct (only changes the dry-run verdict, which is not demanded), not counting
-# a KeyboardInterrupt caught in the feature loop (the run is aborted anyway).
+# or aborts), not counting a KeyboardInterrupt caught in the feature loop (the run is aborted anyway).
 RUN = "behave/runner.py"
 MOD = "behave/model.py"
 M("c01.verdict-ignores-cleanup-failures", ["C01"], RUN, "                  or cleanups_failed)", "                  )")
-M("c01.outline-run-returns-false", ["C01"], MOD, 'runner.context._set_root_attribute("active_outline", None)\n        return failed_count > 0',
-  'runner.context._set_root_attribute("active_outline", None)\n        return False')
+M("c01.outline-run-returns-false", ["C01"], MOD, 'self.clear_status()  # -- ENFORCE: compute_status() after run.\n        return failed_count > 0',
+  'self.clear_status()  # -- ENFORCE: compute_status() after run.\n        return False')
 M("c01.container-ignores-failing-item", ["C01"], MOD, "                failed = run_item.run(runner)\n                if failed:\n                    failed_count += 1",
   "                failed = run_item.run(runner)\n                if failed and not isinstance(run_item, Rule):\n                    failed_count += 1")
 M("c01.main-exit-zero-on-hook-only", ["C01"], "behave/__main__.py", "    return_code = 0\n    if failed:\n        return_code = 1",
   "    return_code = 0\n    if failed and not (runner and runner.hook_failures and not runner.aborted):\n        return_code = 1")
+M("c01.verdict-ignores-undefined-steps", ["C01"], RUN, "                  or (len(self.undefined_steps) > undefined_steps_initial_size)\n", "")
 M("c01.verdict-ignores-aborted", ["C01"], RUN, "failed = ((failed_count > 0) or self.aborted or", "failed = ((failed_count > 0) or")
 M("c01.scenario-cleanup-error-not-failed", ["C01"], MOD, "            self.set_status(Status.error)\n            failed = True\n\n        # -- CAPTURED-OUTPUT:",
   "            self.set_status(Status.error)\n\n        # -- CAPTURED-OUTPUT:")
@@ -195,8 +195,8 @@ M("c17.rows-not-listed", "C17", RR, "            for scenario in self.current_fe
 M("c17.listparser-comments-not-skipped", "C17", RU, "            if not filename or filename.startswith('#'):\n", "            if not filename:\n")
 M("c17.only-failed-status", "C17", RR, "                if scenario.status.has_failed():", "                if scenario.status == Status.failed:")
 M("c17.only-failed-features", "C17", RR, "self.current_feature.status.has_failed():", "self.current_feature.status == Status.failed:")
-M("c17.failed-scenarios-not-reset-per-feature-dup", "C17", RR, "        # -- RESET:\n        self.current_feature = None\n        assert self.current_feature is None",
-  "        # -- RESET:\n        assert True")
+# (not resetting current_feature in eof() is equivalent: formatter.feature() and formatter.eof() are gated by the same condition in
+#  ScenarioContainer.run, so every eof() is preceded by the feature() that overwrites the attribute -- removed, it was never a break)
 M("c17.location-collector-first-line-only", "C17", RU, "        for line in selected_lines:\n            more_scenarios = line_database.select_scenarios_by_line(line)\n            selected_scenarios.update(more_scenarios)",
   "        for line in selected_lines[:1]:\n            more_scenarios = line_database.select_scenarios_by_line(line)\n            selected_scenarios.update(more_scenarios)")
 
